@@ -42,6 +42,8 @@ func runC05(c *Ctx) {
 	c05BufAlias(c)
 	c05Capability(c)
 	c05Consume(c)
+	c05ReadThenWrite(c)
+	c05Unconsumed(c)
 }
 
 // findLit returns the function literal inside f that evaluates a call to ref.
